@@ -92,6 +92,10 @@ pub struct GenOpts {
 	pub meta_body: Option<Vec<u8>>,
 	/// override the declared raw length with 0 (in-progress replay)
 	pub raw_len_zero: bool,
+	/// lengths of the Game Start / Game End blocks when they are not the ones the version prescribes (`extra` then
+	/// applies to the frame events only)
+	pub start_len: Option<usize>,
+	pub end_len: Option<usize>,
 }
 
 impl GenOpts {
@@ -104,6 +108,8 @@ impl GenOpts {
 			unk_sizes: BTreeMap::new(),
 			meta_body: None,
 			raw_len_zero: false,
+			start_len: None,
+			end_len: None,
 		}
 	}
 }
@@ -415,8 +421,9 @@ pub fn build_file(
 ) -> Built {
 	let l = db.for_version(o.ver[0], o.ver[1]);
 	let mut r = Rng::keyed(o.seed, 0xB10C, 0);
-	let start_block = build_start_block(db, o.ver, occ, l.start_len + o.extra, &mut r);
-	let end_block = build_end_block(db, l.end_len + o.extra, &mut r);
+	let block_extra = if o.start_len.is_some() || o.end_len.is_some() { 0 } else { o.extra };
+	let start_block = build_start_block(db, o.ver, occ, o.start_len.unwrap_or(l.start_len + block_extra), &mut r);
+	let end_block = build_end_block(db, o.end_len.unwrap_or(l.end_len + block_extra), &mut r);
 
 	// payload table
 	let mut tbl: Vec<(u8, u16)> = vec![];
